@@ -13,7 +13,6 @@ import (
 
 type (
 	Cond      = sync.Cond
-	Map       = sync.Map
 	WaitGroup = sync.WaitGroup
 	Locker    = sync.Locker
 	Pool      = sync.Pool
@@ -122,3 +121,20 @@ func (o *Once) Do(f func()) {
 		f()
 	})
 }
+
+// Map wraps sync.Map: a scheduling point before every operation (the operations themselves are the
+// real ones, so the detector sees the real map's synchronisation).
+type Map struct{ m sync.Map }
+
+func (m *Map) pt() { sched.Point(sched.OpAtomic, sched.KNone, nil, unsafe.Pointer(m)) }
+
+func (m *Map) Load(k any) (any, bool)           { m.pt(); return m.m.Load(k) }
+func (m *Map) Store(k, v any)                   { m.pt(); m.m.Store(k, v) }
+func (m *Map) LoadOrStore(k, v any) (any, bool) { m.pt(); return m.m.LoadOrStore(k, v) }
+func (m *Map) LoadAndDelete(k any) (any, bool)  { m.pt(); return m.m.LoadAndDelete(k) }
+func (m *Map) Delete(k any)                     { m.pt(); m.m.Delete(k) }
+func (m *Map) Swap(k, v any) (any, bool)        { m.pt(); return m.m.Swap(k, v) }
+func (m *Map) CompareAndSwap(k, o, n any) bool  { m.pt(); return m.m.CompareAndSwap(k, o, n) }
+func (m *Map) CompareAndDelete(k, o any) bool   { m.pt(); return m.m.CompareAndDelete(k, o) }
+func (m *Map) Range(f func(k, v any) bool)      { m.pt(); m.m.Range(f) }
+func (m *Map) Clear()                           { m.pt(); m.m.Clear() }
